@@ -28,7 +28,7 @@ struct Job {
 /// per requested trait: (is_error, flattened tokens)
 fn slots_of(entry: Entry, attr: &str, item: &str, traits: &[String]) -> Result<Vec<(bool, String)>, String> {
     let ts = match entry {
-        Entry::Attr => expand::expand_attr(attr, item)?,
+        Entry::Attr => expand::expand_attr_iterated(attr, item)?,
         Entry::Derive => expand::expand_derive(item)?,
     };
     let items = expand::parse_output(ts, entry == Entry::Attr)?;
@@ -151,6 +151,14 @@ pub fn run(ctx: &Ctx, rep: &mut Report) {
                     jobs.push(Job { seed: si, kind: "split", entry: Entry::Attr, attr: text(&groups[0]), item: format!("{rest}{}", s.item), traits: s.traits.clone(), map: id.clone() });
                     if thorough || cuts.len() == 1 {
                         jobs.push(Job { seed: si, kind: "split", entry: Entry::Derive, attr: String::new(), item: format!("#[derive_ex({})] {rest}{}", text(&groups[0]), s.item), traits: s.traits.clone(), map: id.clone() });
+                    }
+                    if cuts.len() == 1 {
+                        // the later list written with the crate-qualified attribute path: rustc expands it as a second,
+                        // separate invocation on what the first one re-emits
+                        for path in ["derive_ex::derive_ex", "::derive_ex::derive_ex"] {
+                            let q: String = groups[1..].iter().map(|g| format!("#[{path}({})] ", text(g))).collect();
+                            jobs.push(Job { seed: si, kind: "split-qualified-path", entry: Entry::Attr, attr: text(&groups[0]), item: format!("{q}{}", s.item), traits: s.traits.clone(), map: id.clone() });
+                        }
                     }
                     if cuts.len() == 1 {
                         // the lists need not be adjacent: foreign attributes in between
